@@ -578,7 +578,13 @@ def gen_stmt(r, st, closures, counter):
         bad = r.choice([n_, n_ + 3, -n_ - 1, 99])
         ps = path_src(x, steps)
         idx = "[%d]" % bad if bad >= 0 else "[(%d)]" % bad
-        if is_list(tv):
+        if is_list(tv) and any(e is None or isinstance(e, str) for e in tv) and r.random() < 0.5:
+            # an `every` operator-assignment that fails part-way (an element the operator rejects): nothing changes
+            a = r.randint(0, len(tv) - 1)
+            first_bad = min(i for i, e in enumerate(tv) if e is None or isinstance(e, str))
+            lo = r.randint(0, first_bad)
+            stmt = r.choice(["every %s[:] -= 1" % ps, "every %s[%d:] -= 1" % (ps, lo), "every %s[:] //= 2" % ps])
+        elif is_list(tv):
             stmt = r.choice(["%s%s = 1" % (ps, idx), "%s%s += 1" % (ps, idx), "pop %s%s" % (ps, idx), "remove %s%s" % (ps, idx),
                              "%s%s[0] = 1" % (ps, idx), "swap %s%s, %s" % (ps, idx, x), "%s%s append= 1" % (ps, idx)])
         elif isinstance(tv, str):
